@@ -1,7 +1,7 @@
 """C03 - render/re-parse round trip and simplify() preserve appearance and are stable."""
 from .. import obs as O
 from .. import sgr_model as M
-from .common import Contract, ansi_values, history, run_cases, tier_sizes, safe_obs, transition_values, small_scope_values, small_scope_on, stack_values
+from .common import trie_case, Contract, ansi_values, history, run_cases, tier_sizes, safe_obs, transition_values, small_scope_values, small_scope_on, stack_values
 
 PROP = 'C03'
 RULE = ('case = (a) one round trip AnsiString(str(s)) of a reachable value with well-formed settings, compared '
@@ -164,6 +164,12 @@ def drive(ctx, mon, tier, only_case=None):
             for v in vals:
                 roundtrip_probe(ctx, mon, v)
                 v.simplify()
+            return
+        if case == 2:
+            def visit(v, p):
+                roundtrip_probe(ctx, mon, v)
+                v.simplify()
+            trie_case(ctx, mon, tier, 2, 3, visit=visit, cls=L.AnsiStr if ctx.shard % 4 == 3 else None)
             return
         profile = rng.choice(['wf', 'mixed', 'hostile'])
         history(L, rng, ex, rng.randint(1, sz['nops']), sz['maxlen'], profile, WEIGHTS)
